@@ -82,6 +82,12 @@ def local_times(rng, table, n_uniform, per_transition):
         # exactly at the switch, in both wall clocks
         out.append((t[0] + t[1], True))
         out.append((t[0] + t[1] - 1, True))
+    # a logger's record running through a switch: regular sub-hourly samples for two hours either side
+    for t in (rng.sample(trs, min(len(trs), 6)) if trs else []):
+        step = rng.choice([300, 600, 900, 1200])
+        prev = max([x for x in table["transitions"] if x[0] < t[0]], default=[0, table["initial"]])[1]
+        start = ((t[0] + min(prev, t[1]) - 7200) // step) * step
+        out += [(start + k * step, True) for k in range((4 * 3600 + abs(prev - t[1])) // step + 1)]
     return out
 
 
@@ -96,10 +102,29 @@ def timestamp_stream(ctx, zones, n_uniform, per_transition):
         cases = local_times(ctx.rng, table, n_uniform, per_transition)
         texts = [fmt(l) for l, _ in cases]
         model = ctx.driver.call("timestamp", {"zone": table, "texts": texts})
-        for (l, near), text, m in zip(cases, texts, model):
+        # the rows of one file are converted in one call, in the order of the file: oldest first, newest first
+        # or unordered (the loader accepts all three); no row's instant may depend on its neighbours
+        order = list(range(len(texts)))
+        layout = ctx.rng.choice(["as generated", "ascending", "descending", "shuffled"])
+        if layout == "ascending":
+            order.sort(key=lambda i: cases[i][0])
+        elif layout == "descending":
+            order.sort(key=lambda i: -cases[i][0])
+        elif layout == "shuffled":
+            ctx.rng.shuffle(order)
+        ctx.count("files_" + layout.replace(" ", "_"))
+        try:
+            batch = [r[0] for r in lm.generate_timestamped_rows([[texts[i], "1.0"] for i in order], tz)]
+            batch = dict(zip(order, batch)) if len(batch) == len(order) else None
+        except Exception:  # noqa
+            batch = None
+        for i, ((l, near), text, m) in enumerate(zip(cases, texts, model)):
             try:
-                rows = list(lm.generate_timestamped_rows([[text, "1.0"]], tz))
-                got = rows[0][0]
+                if batch is not None:
+                    got = batch[i]
+                else:
+                    rows = list(lm.generate_timestamped_rows([[text, "1.0"]], tz))
+                    got = rows[0][0]
                 err = None
             except Exception as e:  # noqa
                 got, err = None, "%s: %s" % (type(e).__name__, e)
@@ -120,7 +145,8 @@ def timestamp_stream(ctx, zones, n_uniform, per_transition):
             if len(ctx.samples) < 3 and near:
                 ctx.sample({"zone": name, "text": text, "stored_epoch": got, "instants_rendering_to_text": cands})
             if not ok:
-                inp = {"function": "load.generate_timestamped_rows", "zone": name, "text": text}
+                inp = {"function": "load.generate_timestamped_rows", "zone": name, "text": text,
+                       "rows_of_the_call": [texts[k] for k in order] if batch is not None else [text]}
                 rendered = ctx.driver.call("render", {"zone": table, "utc": [got]})[0] if got is not None else None
                 ctx.violation("impl-violation", "c11Holds", {
                     "input": inp, "impl": got if err is None else err, "model": cands,
@@ -281,8 +307,9 @@ def replay(ctx, doc):
         tz = pytz.timezone(inp["zone"])
         table = zone_table(tz)
         m = ctx.driver.call("timestamp", {"zone": table, "texts": [inp["text"]]})[0]
+        rows = inp.get("rows_of_the_call") or [inp["text"]]
         try:
-            got = list(lm.generate_timestamped_rows([[inp["text"], "1"]], tz))[0][0]
+            got = [r[0] for r in lm.generate_timestamped_rows([[x, "1"] for x in rows], tz)][rows.index(inp["text"])]
         except Exception as e:  # noqa
             got = repr(e)
         print("impl:", got, "instants rendering to the text:", m and m["utc"])
